@@ -240,8 +240,10 @@ pub fn judge_history(refs: &Refs, notes: &[Note], check_cli: bool) -> Result<(),
             format!("after this history the server publishes {:?} for {}; a fresh server with the same current contents publishes {:?}", got, refs.names[last.uri_idx], want),
         ));
     }
-    // (3) agreement with the command line
-    if check_cli {
+    // (3) agreement with the command line (not for contents that begin with U+FEFF: stored in a
+    // file that character is a byte-order mark, in a notification it is text - "the same contents"
+    // is not defined for it; history independence is judged all the same)
+    if check_cli && !state.iter().flatten().any(|t| t.starts_with('\u{feff}')) {
         let cli = refs.cli_for(&state).map_err(|e| ("reference".to_string(), e))?;
         let mine: Vec<(String, u64, u64)> = got.iter().map(|d| (d.0.clone(), d.1, d.2)).collect();
         let theirs = cli.get(refs.names[last.uri_idx]).cloned().unwrap_or_default();
@@ -385,6 +387,11 @@ fn random_history(t: &mut Tape, gates: &Gates) -> Vec<Note> {
                 }
                 _ => text,
             };
+            // a text that begins with U+FEFF (an editor that passes the byte-order mark of the file
+            // through): whatever the server makes of it, it makes the same of it in every notification
+            if t.ratio(1, 12) {
+                docs[u].push(format!("{}{}", '\u{feff}', text));
+            }
             // degenerate documents now and then: nothing, blanks, a lone comment, unmatched text
             if t.ratio(1, 10) {
                 docs[u].push((*t.pick(&["", " ", "\n", "(* only a comment *)", "?", "(* never closed", ";"])).to_string());
